@@ -374,6 +374,7 @@ let check_tokens (cfg : econfig) (ops : eop list) (tr : tok list) : unit =
       | OCtl (r, c, ui, _) -> Some (OCtl (r, c, ui, []))
       | OStep (i, u, _) -> Some (OStep (i, u, []))
       | OAdvance d -> Some (OAdvance d)
+      | OSched (i, f, v) -> Some (OSched (i, f, v))
       | OCrash _ | OLose _ | ORewind _ | ODup _ -> None) ops in
     let (wi, ti) = run_ops cfg ideal_ops in
     (* runs are identified by (foreign ID, k-th successful trigger of that foreign ID) in both executions *)
@@ -402,6 +403,43 @@ let check_tokens (cfg : econfig) (ops : eop list) (tr : tok list) : unit =
         if quiescent && ideal_rest && List.length mine < List.length ideal then
           bad "C01" "run %d (foreign ID %d): the system is quiescent but the run stopped %d step(s) short of the failure-free execution (stranded)" (ni run) (ni fid) (List.length ideal - List.length mine)
     ) my_runs
+  end;
+  (* ---------------- C20: scheduled runs are never early, at most one per tick, carry the initial value ---------------- *)
+  if on "C20" then begin
+    let now = ref 0 in
+    let created = Hashtbl.create 8 in      (* fid -> creation times of its runs, newest first *)
+    let started = Hashtbl.create 8 in      (* (inst, fid) -> clock at Schedule() *)
+    List.iteri (fun n seg ->
+      let op = (try List.nth ops n with _ -> OAdvance Z0) in
+      (match op with
+       | OAdvance d -> now := !now + zi d
+       | OSched (i, f, true) -> Hashtbl.replace started (zi i, f) !now
+       | OCrash i -> Hashtbl.filter_map_inplace (fun (i', _) v -> if i' = zi i then None else Some v) started
+       | OTrigger (f, _, _, _) ->
+         List.iter (function TStore (None, r, a) when eff a -> Hashtbl.replace created f (zi r.r_created :: (try Hashtbl.find created f with Not_found -> [])) | _ -> ()) seg
+       | OStep (i, ESched f, pl) ->
+         (match find_sched cfg f with
+          | None -> ()
+          | Some sc ->
+            let filter_false = List.exists (function TUser (UFFilter _, _, _, _, URet z) -> zi z = 0 | _ -> false) seg in
+            List.iter (function
+              | TStore (None, r, a) ->
+                let t = !now in
+                if filter_false then bad "C20" "a run was created in an iteration whose schedule filter answered false";
+                (match r.r_obj with OVal (sd, _) when zi sd = zi sc.sd_seed -> () | _ -> bad "C20" "the scheduled run does not carry the configured initial value");
+                let start = (try Hashtbl.find started (zi i, f) with Not_found -> 0) in
+                let prev = (try Hashtbl.find created f with Not_found -> []) in
+                let nx x = zi (cron_next sc.sd_spec (z_of_int x)) in
+                (match prev with
+                 | l :: _ ->
+                   if t < nx l then bad "C20" "scheduled run created at %d, before the tick %d that follows the latest run (created %d)" t (nx l) l
+                   else if t < nx (max start l) then
+                     bad "C20" "F13-catch-up: scheduled run created at %d, before the first tick %d after the schedule's start %d; the latest run (created %d) predates the start by more than a tick" t (nx start) start l
+                 | [] -> if t < nx start then bad "C20" "scheduled run created at %d, before the first tick %d after the schedule's start %d" t (nx start) start);
+                if eff a then Hashtbl.replace created f (zi r.r_created :: prev)
+              | _ -> ()) seg);
+         if List.exists (fun (_, fl) -> fl = FCrash) pl then Hashtbl.filter_map_inplace (fun (i', _) v -> if i' = zi i then None else Some v) started
+       | _ -> ())) segs
   end;
   (* ---------------- C14: at quiescence every entry into a hooked state has had its hook run to success ---------------- *)
   if on "C14" && quiescent then begin
